@@ -29,6 +29,9 @@ func checkC01(w *World, r *Report) {
 	checkC01FullConsumption(w, r)
 	checkC01Priority(w, r)
 	checkC01TsrLast(w, r, "C01.6")
+	checkNodeConstruction(w, r, "C01.7")
+	checkC01LazyInvariance(w, r, "C01.8")
+	checkNoEmptyCapture(w, r, "C01.9")
 }
 
 // ---- C01.1 --------------------------------------------------------------------------------------------------
@@ -653,5 +656,169 @@ func checkC01TsrLast(w *World, r *Report, id string) {
 			ru.Check("return in "+name, w.Pos(ret.Pos()), "tsr result false, or final return with no alternative left", okk, why)
 			return true
 		})
+	}
+}
+
+// ---- C01.8 --------------------------------------------------------------------------------------------------
+
+// checkC01LazyInvariance: lazy lookups (Reverse, Route, Has, the Allow loops) must select exactly like recording ones:
+// code under `if !lazy` may only record parameters, never touch the variables that steer the walk.
+func checkC01LazyInvariance(w *World, r *Report, id string) {
+	ru := r.Rule(id, "lazy lookups select like recording lookups: in both matchers the statements guarded by `!lazy` only record parameters (append to / reslice the context's params and tsrParams, copyWithResize, increment of the parameter counter); no variable that steers the walk is assigned there", 4)
+	for _, name := range []string{"lookupByPath", "lookupByDomain"} {
+		af := w.astFuncOf(modulePath, name)
+		n := 0
+		ast.Inspect(af.decl.Body, func(m ast.Node) bool {
+			ifs, ok := m.(*ast.IfStmt)
+			if !ok || exprStr(ifs.Cond) != "!lazy" {
+				return true
+			}
+			n++
+			bad := ""
+			for _, st := range ifs.Body.List {
+				switch x := st.(type) {
+				case *ast.IncDecStmt:
+					if exprStr(x.X) != "paramCnt" {
+						bad = "modifies " + exprStr(x.X)
+					}
+				case *ast.AssignStmt:
+					for _, l := range x.Lhs {
+						ls := exprStr(l)
+						if !(strings.HasSuffix(ls, ".params") || strings.HasSuffix(ls, ".tsrParams")) || !strings.HasPrefix(ls, "*") {
+							bad = "assigns " + ls
+						}
+					}
+				case *ast.ExprStmt:
+					if c, ok := x.X.(*ast.CallExpr); !ok || exprStr(c.Fun) != "copyWithResize" {
+						bad = "executes " + exprStr(x.X)
+					}
+				default:
+					bad = fmt.Sprintf("contains a %T", st)
+				}
+			}
+			if ifs.Else != nil {
+				bad = "has an else branch (lazy-only behaviour)"
+			}
+			ru.Check("`if !lazy` block in "+name, w.Pos(ifs.Pos()), "only parameter recording", bad == "", orDefault(bad, "records parameters only"))
+			return true
+		})
+		// lazy must not appear in any other condition
+		ast.Inspect(af.decl.Body, func(m ast.Node) bool {
+			id, ok := m.(*ast.Ident)
+			if !ok || id.Name != "lazy" {
+				return true
+			}
+			// allowed: as the operand of `!lazy` in an if condition, or passed on to a sub-lookup
+			okUse := false
+			ast.Inspect(af.decl.Body, func(q ast.Node) bool {
+				switch x := q.(type) {
+				case *ast.IfStmt:
+					if u, ok := x.Cond.(*ast.UnaryExpr); ok && u.Op == token.NOT && u.X == ast.Expr(id) {
+						okUse = true
+					}
+				case *ast.CallExpr:
+					for _, a := range x.Args {
+						if a == ast.Expr(id) {
+							okUse = true
+						}
+					}
+				}
+				return true
+			})
+			if !okUse {
+				ru.Fail("use of lazy in "+name, w.Pos(id.Pos()), "lazy only guards parameter recording or is handed to a sub-lookup", "lazy takes part in another decision")
+			}
+			return true
+		})
+		if n == 0 {
+			r.Unrecognised("%s: no `if !lazy` block found in %s", id, name)
+		}
+	}
+}
+
+// ---- C01.9 --------------------------------------------------------------------------------------------------
+
+// checkNoEmptyCapture: a named parameter never captures an empty segment / label: between the search for the next
+// delimiter and the recording of the parameter, every path establishes idx > 0 or idx < 0 (the idx == 0 case leaves the
+// walk). Shared with C09 (host labels).
+func checkNoEmptyCapture(w *World, r *Report, id string) {
+	ru := r.Rule(id, "no empty capture: in both matchers, every path from the search of the next delimiter (strings.IndexByte) to the advance of the cursor over a {param} goes through idx > 0 or idx < 0; an empty segment or host label (idx == 0) abandons the branch", 2)
+	for _, spec := range []struct{ fn, delim string }{{"lookupByPath", "slashDelim"}, {"lookupByDomain", "dotDelim"}} {
+		af := w.astFuncOf(modulePath, spec.fn)
+		found := 0
+		for _, b := range af.g.Blocks {
+			if !b.Live {
+				continue
+			}
+			for _, nd := range b.Nodes {
+				as, ok := nd.(*ast.AssignStmt)
+				if !ok || len(as.Rhs) != 1 {
+					continue
+				}
+				call, ok := as.Rhs[0].(*ast.CallExpr)
+				if !ok || exprStr(call.Fun) != "strings.IndexByte" || len(call.Args) != 2 || exprStr(call.Args[1]) != spec.delim {
+					continue
+				}
+				// only the search that precedes a {param} capture: its block is under the fact key[i] == bracketDelim
+				inParam := false
+				for _, f := range af.factsAt(b) {
+					if x, y, ok := isCmp(f.e, token.EQL); ok && f.val && strings.HasSuffix(x, ".key[i]") && y == "bracketDelim" {
+						inParam = true
+					}
+				}
+				if !inParam {
+					continue
+				}
+				found++
+				idxVar := exprStr(as.Lhs[0])
+				// walk forward: every path must pass an edge idx>0 / idx<0 (true) before reaching a `paramKeyCnt++`
+				bad := ""
+				var dfs func(x *cfg.Block, safe bool, seen map[*cfg.Block]bool)
+				dfs = func(x *cfg.Block, safe bool, seen map[*cfg.Block]bool) {
+					if bad != "" || seen[x] {
+						return
+					}
+					seen[x] = true
+					for _, n2 := range x.Nodes {
+						if inc, ok := n2.(*ast.IncDecStmt); ok && exprStr(inc.X) == "paramKeyCnt" && x != b {
+							if !safe {
+								bad = "the parameter is consumed at " + w.Pos(inc.Pos()) + " on a path where " + idxVar + " may be 0 (empty capture)"
+							}
+							delete(seen, x)
+							return
+						}
+					}
+					for _, sc := range x.Succs {
+						if !sc.Live {
+							continue
+						}
+						s2 := safe
+						if f, ok := af.edgeFact(x, sc); ok {
+							for _, ff := range splitFact(f) {
+								if a, c, ok := isCmp(ff.e, token.GTR); ok && ff.val && a == idxVar && c == "0" {
+									s2 = true
+								}
+								if a, c, ok := isCmp(ff.e, token.LSS); ok && ff.val && a == idxVar && c == "0" {
+									s2 = true
+								}
+								if a, c, ok := isCmp(ff.e, token.EQL); ok && !ff.val && a == idxVar && c == "0" {
+									s2 = true
+								}
+								if a, c, ok := isCmp(ff.e, token.NEQ); ok && ff.val && a == idxVar && c == "0" {
+									s2 = true
+								}
+							}
+						}
+						dfs(sc, s2, seen)
+					}
+					delete(seen, x)
+				}
+				dfs(b, false, map[*cfg.Block]bool{})
+				ru.Check("delimiter search in "+spec.fn, w.Pos(as.Pos()), "idx == 0 never reaches the capture", bad == "", orDefault(bad, "every capturing path has idx > 0 or idx < 0"))
+			}
+		}
+		if found == 0 {
+			r.Unrecognised("%s: no delimiter search for a {param} found in %s", id, spec.fn)
+		}
 	}
 }
